@@ -371,6 +371,8 @@ def explore(rng, profile="basic", name="x"):
     if profile == "weights":      # C19 / C13(b-d): the sub-alphabet with an exact fresh-node oracle (checks/weights_common.py)
         from checks import weights_common
         return weights_common.explore(rng, name)
+    if profile == "topo":
+        return explore_topo(rng, name)      # C02: constraint-heavy batches over a friendly catalog (below)
     types = gen_catalog(rng, profile)
     pools = gen_pools(rng, types, profile)
     dss = gen_daemonsets(rng)
@@ -394,6 +396,235 @@ def explore(rng, profile="basic", name="x"):
             "workers": rng.choice([1, 2, 8]), "maxTypes": 0, "create": False}
     return {"name": name, "options": opts, "types": types, "pools": pools, "nodes": nodes, "ds": dss, "scs": scs, "pvs": pvs,
             "pvcs": pvcs, "pods": bound + pods}
+
+
+# ---------------------------------------------------------------------------------------------------------------------
+# profile "topo" (C02, spec/Topology.tla): inter-pod constraint heavy batches.  The catalog and pools are friendly (every
+# zone on offer, big nodes, few node-level constraints) so that most pods ARE placed and the C02 guards get evaluated;
+# what varies is the constraint mix, the pre-bound pod distribution, the node/domain layout and the dequeue order
+# (induced through request sizes and creation timestamps - the queue sorts by cpu, memory, creation time).
+APPS = ["x", "s", "z", "f", "h"]
+
+
+def topo_term(key, app, **kw):
+    t = {"key": key, "sel": {"app": app}, "ns": [], "nsAll": False, "nsSel": {}, "weight": 0}
+    t.update(kw)
+    return t
+
+
+def topo_spread(key, app="s", skew=1, when="DoNotSchedule", **kw):
+    s = {"key": key, "maxSkew": skew, "minDomains": 0, "when": when, "sel": {"app": app}, "affPol": "", "taintPol": "", "matchKeys": []}
+    s.update(kw)
+    return s
+
+
+def topo_archetypes(rng, zones):
+    """each archetype mutates a plain pod; (name, fn)"""
+    z = lambda: rng.choice(zones)
+    def plain_x(p): p["labels"]["app"] = "x"
+    def plain_s(p): p["labels"]["app"] = "s"                                  # matches the spread selector, carries nothing
+    def plain_s_zone(p): p["labels"]["app"] = "s"; p["sel"]["zone"] = z()
+    def self_anti_host(p): p["labels"]["app"] = "h"; p["anti"] = [topo_term("host", "h")]
+    def self_anti_zone(p): p["labels"]["app"] = "z"; p["anti"] = [topo_term("zone", "z")]
+    def anti_x(p): p["anti"] = [topo_term(rng.choice(["zone", "zone", "host"]), "x")]
+    def anti_x_labelled(p): p["labels"]["app"] = "y"; p["anti"] = [topo_term("zone", "x")]
+    def aff_x(p): p["aff"] = [topo_term(rng.choice(["zone", "zone", "host"]), "x")]
+    def self_aff_zone(p): p["labels"]["app"] = "f"; p["aff"] = [topo_term("zone", "f")]
+    def self_aff_host(p): p["labels"]["app"] = "f"; p["aff"] = [topo_term("host", "f")]
+    def self_aff_zone_sel(p): p["labels"]["app"] = "f"; p["aff"] = [topo_term("zone", "f")]; p["sel"]["zone"] = z()
+    def aff_and_anti(p): p["labels"]["app"] = "h"; p["aff"] = [topo_term("zone", "x")]; p["anti"] = [topo_term("host", "h")]
+    def pref_anti(p): p["labels"]["app"] = "x"; p["prefAnti"] = [topo_term("zone", "x", weight=10)]
+    def pref_aff(p): p["prefAff"] = [topo_term(rng.choice(["zone", "host"]), "x", weight=10)]
+    def spread_zone(p): p["labels"]["app"] = "s"; p["spread"] = [topo_spread("zone")]
+    def spread_zone2(p): p["labels"]["app"] = "s"; p["spread"] = [topo_spread("zone", skew=2)]
+    def spread_zone_min(p): p["labels"]["app"] = "s"; p["spread"] = [topo_spread("zone", minDomains=rng.choice([2, 3, 3, 4]))]
+    def spread_host(p): p["labels"]["app"] = "s"; p["spread"] = [topo_spread("host", skew=rng.choice([1, 1, 2]))]
+    def spread_zone_host(p): p["labels"]["app"] = "s"; p["spread"] = [topo_spread("zone"), topo_spread("host")]
+    def spread_limited(p): p["labels"]["app"] = "s"; p["spread"] = [topo_spread("zone")]; p["sel"]["zone"] = z()
+    def spread_limited_terms(p):
+        p["labels"]["app"] = "s"; p["spread"] = [topo_spread("zone")]
+        p["terms"] = [[expr("zone", "In", rng.sample(zones, min(2, len(zones))))]]
+    def spread_two_terms(p):
+        p["labels"]["app"] = "s"; p["spread"] = [topo_spread("zone")]
+        p["terms"] = [[expr("zone", "In", [z()])], [expr("zone", "In", [z()])]]
+    def spread_ignore(p): p["labels"]["app"] = "s"; p["spread"] = [topo_spread("zone", affPol="Ignore")]; p["sel"]["zone"] = z()
+    def spread_honor_taints(p): p["labels"]["app"] = "s"; p["spread"] = [topo_spread("zone", taintPol="Honor")]
+    def spread_honor_tol(p): p["labels"]["app"] = "s"; p["spread"] = [topo_spread("zone", taintPol="Honor")]; p["tol"] = [dict(TOL_TAINT)]
+    def spread_matchkeys(p):
+        p["labels"]["app"] = "s"; p["labels"]["rev"] = rng.choice(["1", "2", "2"])
+        p["spread"] = [topo_spread("zone", matchKeys=["rev"])]
+    def spread_anyway(p): p["labels"]["app"] = "s"; p["spread"] = [topo_spread("zone", when="ScheduleAnyway")]
+    def spread_ct(p): p["labels"]["app"] = "s"; p["spread"] = [topo_spread("ct", skew=rng.choice([1, 2]))]
+    def spread_other_sel(p): p["labels"]["app"] = "x"; p["spread"] = [topo_spread("zone", app="x")]
+    def spread_not_self(p): p["labels"]["app"] = "y"; p["spread"] = [topo_spread("zone", app="s")]   # does not match its own selector
+    def spread_pref_zone(p):
+        p["labels"]["app"] = "s"; p["spread"] = [topo_spread("zone")]
+        p["pref"] = [{"weight": 10, "exprs": [expr("zone", "In", [z()])]}]
+    def other_ns_x(p): p["ns"] = "other"; p["labels"]["app"] = "x"
+    def other_ns_spread(p): p["ns"] = "other"; p["labels"]["app"] = "s"; p["spread"] = [topo_spread("zone")]
+    def anti_ns(p): p["anti"] = [topo_term("zone", "x", ns=["other"])]
+    def anti_allns(p): p["anti"] = [topo_term(rng.choice(["zone", "host"]), "x", nsAll=True)]
+    def anti_nssel(p): p["anti"] = [topo_term("zone", "x", nsSel={"tier": "prod"})]
+    def anti_ns_and_sel(p): p["anti"] = [topo_term("zone", "x", ns=["other"], nsSel={"tier": "dev"})]
+    def aff_ns(p): p["aff"] = [topo_term("zone", "x", ns=["other", "default"])]
+    def aff_nssel(p): p["aff"] = [topo_term("zone", "x", nsSel={"tier": "prod"})]
+    def daemon_shaped(p): p["owner"] = "ds:dsx"; p["labels"]["app"] = "x"
+    fns = [plain_x, plain_s, plain_s_zone, self_anti_host, self_anti_zone, anti_x, anti_x_labelled, aff_x, self_aff_zone, self_aff_host,
+           self_aff_zone_sel, aff_and_anti, pref_anti, pref_aff, spread_zone, spread_zone2, spread_zone_min, spread_host, spread_zone_host,
+           spread_limited, spread_limited_terms, spread_two_terms, spread_ignore, spread_honor_taints, spread_honor_tol, spread_matchkeys,
+           spread_anyway, spread_ct, spread_other_sel, spread_not_self, spread_pref_zone, other_ns_x, other_ns_spread, anti_ns, anti_allns,
+           anti_nssel, anti_ns_and_sel, aff_ns, aff_nssel, daemon_shaped]
+    return fns
+
+
+def topo_catalog(rng, zones):
+    types = []
+    for i in range(rng.choice([1, 2, 2, 3])):
+        cpu, mem = rng.choice([(2000, 4096), (4000, 8192), (4000, 8192), (8000, 16384)])
+        t = {"name": "t%d" % i, "cpu": cpu, "mem": mem, "pods": rng.choice([110, 110, 110, 3, 2]),
+             "labels": {"arch": "amd64", "os": "linux", "gen": str(rng.choice([1, 2, 3]))}, "ovCpu": rng.choice([0, 100]), "ovMem": 0, "offerings": []}
+        for zn in zones:
+            if len(zones) > 2 and rng.random() < 0.1:
+                continue
+            for ct in ("spot", "od"):
+                if rng.random() < 0.15:
+                    continue
+                t["offerings"].append({"zone": zn, "ct": ct, "price": (60 if ct == "spot" else 100) * cpu // 1000 + rng.randrange(5),
+                                       "available": rng.random() < 0.93, "rid": "", "rcap": 0, "cpuOv": 0, "memOv": 0})
+        if not t["offerings"]:
+            t["offerings"].append({"zone": zones[0], "ct": "od", "price": 100, "available": True, "rid": "", "rcap": 0, "cpuOv": 0, "memOv": 0})
+        types.append(t)
+    return types
+
+
+def topo_pools(rng, zones):
+    pools = []
+    for i in range(rng.choice([1, 1, 1, 2, 2])):
+        p = {"name": "p%d" % i, "weight": rng.choice([0, 0, 10]), "reqs": [], "labels": {}, "taints": [], "startup": [],
+             "limits": {"cpu": 0, "mem": 0, "nodes": -1}, "types": []}
+        r = rng.random()
+        if r < 0.25 and len(zones) > 1:
+            p["reqs"].append({"key": "zone", "op": "In", "vals": rng.sample(zones, len(zones) - 1), "n": 0, "min": 0})
+        elif r < 0.32:
+            p["reqs"].append({"key": "zone", "op": "NotIn", "vals": [rng.choice(zones)], "n": 0, "min": 0})
+        if rng.random() < 0.15:
+            p["reqs"].append({"key": "ct", "op": "In", "vals": [rng.choice(["spot", "od"])], "n": 0, "min": 0})
+        if rng.random() < 0.2:
+            p["labels"]["team"] = rng.choice(["x", "y"])
+        if i > 0 and rng.random() < 0.5:
+            p["taints"].append(dict(TAINT))
+        if rng.random() < 0.15:
+            p["taints"].append(dict(PREFER))
+        if rng.random() < 0.1:
+            p["limits"]["nodes"] = rng.choice([1, 2, 3])
+        pools.append(p)
+    return pools
+
+
+def topo_bound_pod(rng, name, node, zones):
+    bp = plain_pod(name, rng.choice([100, 200, 300]), 64)
+    bp.update({"node": node, "owner": "rs", "tol": [dict(TOL_ALL)]})
+    r = rng.random()
+    if r < 0.3:
+        bp["labels"] = {"app": "x"}
+    elif r < 0.6:
+        bp["labels"] = {"app": "s"}
+        if rng.random() < 0.6:
+            bp["spread"] = [topo_spread("zone")]
+        if rng.random() < 0.3:
+            bp["labels"]["rev"] = rng.choice(["1", "2"])
+    elif r < 0.7:
+        bp["labels"] = {"app": rng.choice(["z", "h"])}
+        bp["anti"] = [topo_term("zone" if bp["labels"]["app"] == "z" else "host", bp["labels"]["app"])]
+    elif r < 0.85:                                   # running pod whose anti-affinity binds newcomers (inverse direction)
+        bp["labels"] = {"app": rng.choice(["q", "x"])}
+        bp["anti"] = [topo_term(rng.choice(["zone", "zone", "host"]), rng.choice(["x", "s", "f"]),
+                                **rng.choice([{}, {}, {"nsAll": True}, {"ns": ["other"]}]))]
+    else:
+        bp["labels"] = {"app": "f"}
+    if rng.random() < 0.12:
+        bp["ns"] = "other"
+    r = rng.random()
+    if r < 0.1:
+        bp["terminating"] = True
+    elif r < 0.15:
+        bp["phase"] = rng.choice(["Succeeded", "Failed"])
+    return bp
+
+
+def topo_nodes(rng, types, pools, zones):
+    nodes, pods = [], []
+    for i in range(rng.choice([0, 1, 1, 2, 2, 3, 4])):
+        t = rng.choice(types)
+        o = rng.choice(t["offerings"])
+        pool = rng.choice(pools)
+        stage = rng.choice(["initialized"] * 6 + ["registered", "claimonly", "unmanaged", "unmanaged"])
+        labels = {"zone": o["zone"], "ct": o["ct"], "it": t["name"]}
+        labels.update(t["labels"])
+        n = {"name": "n%d" % i, "stage": stage, "pool": pool["name"], "labels": labels, "taints": [], "startup": [], "ephemeral": False,
+             "alloc": {"cpu": t["cpu"] - t["ovCpu"], "mem": t["mem"], "pods": rng.choice([110, 110, 4])}, "cap": {"cpu": t["cpu"], "mem": t["mem"], "pods": 110},
+             "marked": False, "deleting": False, "csi": []}
+        if stage == "unmanaged":
+            n["pool"] = ""
+            if rng.random() < 0.3:
+                n["taints"].append(dict(TAINT))
+            if rng.random() < 0.2:
+                del labels["ct"]
+            if rng.random() < 0.15:
+                labels["zone"] = "u"                    # a zone no pool can provision
+        else:
+            labels["pool"] = pool["name"]
+            labels.update(pool["labels"])
+            n["taints"] = copy.deepcopy(pool["taints"])
+            if stage == "registered" and rng.random() < 0.5:
+                n["ephemeral"] = True
+        r = rng.random()
+        if r < 0.12:
+            n["marked"] = True
+        elif r < 0.2 and stage in ("initialized", "unmanaged"):
+            n["deleting"] = True
+        nodes.append(n)
+        if stage != "claimonly":
+            for j in range(rng.choice([0, 1, 1, 2, 3])):
+                pods.append(topo_bound_pod(rng, "b%d%d" % (i, j), n["name"], zones))
+    if nodes and rng.random() < 0.08:
+        pods.append(dict(topo_bound_pod(rng, "bgone", "vanished", zones)))     # leaked pod: its node no longer exists
+    return nodes, pods
+
+
+def explore_topo(rng, name="x"):
+    zones = rng.choice([["a", "b"], ["a", "b"], ["a", "b", "c"], ["a", "b", "c"], ["a"]])
+    types = topo_catalog(rng, zones)
+    pools = topo_pools(rng, zones)
+    nodes, bound = topo_nodes(rng, types, pools, zones)
+    arch = topo_archetypes(rng, zones)
+    # a batch = 1-3 "deployments" (replicas of one archetype) + a few singletons
+    pods = []
+    focus = rng.sample(arch, rng.choice([1, 2, 2, 3]))
+    n = rng.choice([2, 3, 3, 4, 4, 5, 6, 8])
+    big = max(t["cpu"] for t in types)
+    for i in range(n):
+        p = plain_pod("w%d" % i, rng.choice([100, 200, 300, 400, 500, 700, 900, 1100, big // 2 + 100]), rng.choice([64, 128, 256]))
+        p["created"] = rng.randrange(3)
+        (rng.choice(focus) if rng.random() < 0.75 else rng.choice(arch))(p)
+        r = rng.random()
+        if r < 0.08 and not p["sel"]:
+            p["sel"]["zone"] = rng.choice(zones)
+        elif r < 0.14 and not p["terms"]:
+            p["terms"] = [[expr("zone", "In", [rng.choice(zones)])], [expr("zone", "In", [rng.choice(zones)])]]
+        elif r < 0.2 and not p["pref"]:
+            p["pref"] = [{"weight": 10, "exprs": [expr("zone", "In", [rng.choice(zones)])]}]
+        elif r < 0.26 and not p["tol"]:
+            p["tol"] = [dict(TOL_TAINT)]
+        pods.append(p)
+    dss = []
+    if any(p["owner"] == "ds:dsx" for p in pods):
+        dss.append({"name": "dsx", "ns": "default", "cpu": 100, "mem": 64, "sel": {}, "terms": [], "tol": [dict(TOL_ALL)], "ports": []})
+    nss = [{"name": "default", "labels": {"tier": rng.choice(["prod", "dev"])}}, {"name": "other", "labels": {"tier": rng.choice(["prod", "prod", "dev"])}}]
+    opts = {"preference": rng.choice(["Respect", "Respect", "Ignore"]), "minValues": "Strict", "reserved": "strict",
+            "workers": rng.choice([1, 2, 8]), "maxTypes": 0, "create": False}
+    return {"name": name, "options": opts, "types": types, "pools": pools, "nodes": nodes, "ds": dss, "scs": [], "pvs": [], "pvcs": [],
+            "pods": bound + pods, "nss": nss}
 
 
 OPTION_GRID = [{"preference": pr, "minValues": mv, "workers": w} for pr in ("Respect", "Ignore") for mv in ("Strict", "BestEffort")
